@@ -558,6 +558,12 @@ def run_prop(ctx, prop, focuses):
         out.rule = "replay of a native process-backend probe case"
         m1_threads.process_probe(ctx, out, {prop}, 1, cases=[ctx.replay["case"]])
         return out
+    if ctx.replay and ctx.replay.get("case", {}).get("kind") == "m1l":
+        from . import m1_lock
+        out = Result()
+        out.rule = "replay of a forced real-thread schedule at lock-boundary granularity (M1L)"
+        m1_lock.replay_case(ctx, out, ctx.replay["case"])
+        return out
     if ctx.replay and ctx.replay.get("case", {}).get("kind") == "native-exc-kind":
         from . import m1_threads
         out = Result()
@@ -588,6 +594,9 @@ def run_prop(ctx, prop, focuses):
         if prop in ("C01", "C09"):
             autobatch_probe(ctx, out, {prop}, 20000, prop)
         if prop in ("C01", "C04", "C09"):
+            from . import m1_lock
+            m1_lock.run_lock_scenarios(ctx, out, prop)
+        if prop in ("C01", "C04", "C09"):
             from . import m1_threads
             m1_threads.probe(ctx, out, {prop}, 80)
             m1_threads.process_probe(ctx, out, {prop}, 16)
@@ -600,6 +609,9 @@ def run_prop(ctx, prop, focuses):
     instr_sweep(ctx, out, {prop}, 150)
     if prop in ("C01", "C09"):
         autobatch_probe(ctx, out, {prop}, 400, prop)
+    if prop in ("C01", "C04", "C09"):
+        from . import m1_lock
+        m1_lock.run_lock_scenarios(ctx, out, prop)
     if prop in ("C01", "C04", "C09"):
         from . import m1_threads
         m1_threads.probe(ctx, out, {prop}, 12)
